@@ -213,6 +213,14 @@ def LockSt.empty : LockSt := ⟨[], none⟩
 def free (holds : List Hold) (k : Key) (write : Bool) : Bool :=
   holds.all (fun h => h.key ≠ k || (!write && !h.write))
 
+/-- current read holds of `k` -/
+def readers (holds : List Hold) (k : Key) : Nat := holds.countP (fun h => h.key = k && !h.write)
+
+/-- `free`, with at most `cap` simultaneous readers per key (`cap = 0`: no limit — the key lockers; a semaphore map
+admits `rwRatio` readers, a writer takes all the tokens) -/
+def freeC (cap : Nat) (holds : List Hold) (k : Key) (write : Bool) : Bool :=
+  free holds k write && (write || cap == 0 || decide (readers holds k < cap))
+
 def grant (holds : List Hold) (t : Nat) (keys : List Key) (write : Bool) : List Hold :=
   holds ++ keys.map (fun k => ⟨t, k, write⟩)
 
@@ -223,9 +231,9 @@ def distinct : List Key → Bool
 /-- acquire: `none` = not a legal script line (someone is already blocked, duplicate keys in a WRITE list — a READ list
 may name a key twice and then takes it twice —, the thread already
 holds one of the keys); otherwise the new state and whether the call returned (`true`) or is parked -/
-def LockSt.acquire (s : LockSt) (t : Nat) (keys : List Key) (write : Bool) : Option (LockSt × Bool) :=
+def LockSt.acquire (cap : Nat) (s : LockSt) (t : Nat) (keys : List Key) (write : Bool) : Option (LockSt × Bool) :=
   if s.waiter.isSome || keys.isEmpty || (write && !distinct keys) || s.holds.any (fun h => h.thread = t && keys.contains h.key) then none
-  else if keys.all (fun k => free s.holds k write) then some (⟨grant s.holds t keys write, none⟩, true)
+  else if keys.all (fun k => freeC cap s.holds k write) then some (⟨grant s.holds t keys write, none⟩, true)
   else some (⟨s.holds, some ⟨t, keys, write⟩⟩, false)
 
 /-- one hold of thread `t` is given back per listed key (a key listed twice in a READ list was taken twice) -/
@@ -234,14 +242,14 @@ def dropHolds (holds : List Hold) (t : Nat) (keys : List Key) (write : Bool) : L
 
 /-- release: `none` = not legal (the thread is the blocked one, or does not hold every key in that mode);
 otherwise the new state and the thread whose blocked call now returns, if any -/
-def LockSt.release (s : LockSt) (t : Nat) (keys : List Key) (write : Bool) : Option (LockSt × Option Nat) :=
+def LockSt.release (cap : Nat) (s : LockSt) (t : Nat) (keys : List Key) (write : Bool) : Option (LockSt × Option Nat) :=
   if keys.isEmpty || (write && !distinct keys) || (s.waiter.any (fun w => w.thread = t)) ||
       !keys.all (fun k => decide (keys.count k ≤ s.holds.count ⟨t, k, write⟩)) then none
   else
     let holds := dropHolds s.holds t keys write
     match s.waiter with
     | some w =>
-      if w.keys.all (fun k => free holds k w.write) then some (⟨grant holds w.thread w.keys w.write, none⟩, some w.thread)
+      if w.keys.all (fun k => freeC cap holds k w.write) then some (⟨grant holds w.thread w.keys w.write, none⟩, some w.thread)
       else some (⟨holds, some w⟩, none)
     | none => some (⟨holds, none⟩, none)
 
@@ -265,7 +273,7 @@ structure ShLockSt where
 
 def ShLockSt.empty : ShLockSt := ⟨fun _ => [], none⟩
 
-def shFree (idx : Key → Nat) (sh : Nat → List Hold) (k : Key) (write : Bool) : Bool := free (sh (idx k)) k write
+def shFree (cap : Nat) (idx : Key → Nat) (sh : Nat → List Hold) (k : Key) (write : Bool) : Bool := freeC cap (sh (idx k)) k write
 
 def shGrant (idx : Key → Nat) (sh : Nat → List Hold) (t : Nat) (keys : List Key) (write : Bool) : Nat → List Hold :=
   fun i => sh i ++ ((shardOrder idx keys).filter (fun k => idx k = i)).map (fun k => ⟨t, k, write⟩)
@@ -273,21 +281,21 @@ def shGrant (idx : Key → Nat) (sh : Nat → List Hold) (t : Nat) (keys : List 
 def shDrop (sh : Nat → List Hold) (t : Nat) (keys : List Key) (write : Bool) : Nat → List Hold :=
   fun i => dropHolds (sh i) t keys write
 
-def ShLockSt.acquire (idx : Key → Nat) (s : ShLockSt) (t : Nat) (keys : List Key) (write : Bool) : Option (ShLockSt × Bool) :=
+def ShLockSt.acquire (cap : Nat) (idx : Key → Nat) (s : ShLockSt) (t : Nat) (keys : List Key) (write : Bool) : Option (ShLockSt × Bool) :=
   if s.waiter.isSome || keys.isEmpty || (write && !distinct keys) ||
       keys.any (fun k => (s.shards (idx k)).any (fun h => h.thread = t && h.key = k)) then none
-  else if (shardOrder idx keys).all (fun k => shFree idx s.shards k write) then
+  else if (shardOrder idx keys).all (fun k => shFree cap idx s.shards k write) then
     some (⟨shGrant idx s.shards t keys write, none⟩, true)
   else some (⟨s.shards, some ⟨t, keys, write⟩⟩, false)
 
-def ShLockSt.release (idx : Key → Nat) (s : ShLockSt) (t : Nat) (keys : List Key) (write : Bool) : Option (ShLockSt × Option Nat) :=
+def ShLockSt.release (cap : Nat) (idx : Key → Nat) (s : ShLockSt) (t : Nat) (keys : List Key) (write : Bool) : Option (ShLockSt × Option Nat) :=
   if keys.isEmpty || (write && !distinct keys) || (s.waiter.any (fun w => w.thread = t)) ||
       !keys.all (fun k => decide (keys.count k ≤ (s.shards (idx k)).count ⟨t, k, write⟩)) then none
   else
     let sh := shDrop s.shards t keys write
     match s.waiter with
     | some w =>
-      if (shardOrder idx w.keys).all (fun k => shFree idx sh k w.write) then
+      if (shardOrder idx w.keys).all (fun k => shFree cap idx sh k w.write) then
         some (⟨shGrant idx sh w.thread w.keys w.write, none⟩, some w.thread)
       else some (⟨sh, some w⟩, none)
     | none => some (⟨sh, none⟩, none)
@@ -298,21 +306,21 @@ inductive LReq | acq (t : Nat) (keys : List Key) (write : Bool) | rel (t : Nat) 
 inductive LResp | illegal | granted | parked | released (woke : Option Nat)
 deriving DecidableEq, Repr
 
-def lockStep (s : LockSt) : LReq → LockSt × LResp
-  | .acq t keys w => match s.acquire t keys w with
+def lockStep (cap : Nat) (s : LockSt) : LReq → LockSt × LResp
+  | .acq t keys w => match s.acquire cap t keys w with
     | none => (s, .illegal)
     | some (s', true) => (s', .granted)
     | some (s', false) => (s', .parked)
-  | .rel t keys w => match s.release t keys w with
+  | .rel t keys w => match s.release cap t keys w with
     | none => (s, .illegal)
     | some (s', woke) => (s', .released woke)
 
-def shLockStep (idx : Key → Nat) (s : ShLockSt) : LReq → ShLockSt × LResp
-  | .acq t keys w => match s.acquire idx t keys w with
+def shLockStep (cap : Nat) (idx : Key → Nat) (s : ShLockSt) : LReq → ShLockSt × LResp
+  | .acq t keys w => match s.acquire cap idx t keys w with
     | none => (s, .illegal)
     | some (s', true) => (s', .granted)
     | some (s', false) => (s', .parked)
-  | .rel t keys w => match s.release idx t keys w with
+  | .rel t keys w => match s.release cap idx t keys w with
     | none => (s, .illegal)
     | some (s', woke) => (s', .released woke)
 
